@@ -88,3 +88,139 @@ def gen_layout_schema(r, prefix="L"):
         r.shuffle(items)
         decls.append({"kind": "impl", "protocol": proto, "type": st, "name": rename, "items": items})
     return decls
+
+
+def _scalar_width(t, enum_w):
+    k = t[0]
+    if k in ("u", "i"):
+        return t[1]
+    if k == "f32":
+        return 32
+    if k == "f64":
+        return 64
+    if k == "enum":
+        return enum_w[t[1]]
+    raise ValueError(t)
+
+
+def gen_budget_struct(r, name, budget, enums, enum_w, structs, struct_w, fidx, flat=False, floats=True):
+    """Struct of fixed-size fields whose total width is <= budget (>= 1).  Field names are unique
+    across the whole schema (fidx is a shared counter)."""
+    fields = []
+    left = budget
+    nf = r.randint(1, 8 if flat else 6)
+    ids = r.sample(range(0, 40), nf)
+    for fid in ids:
+        if left <= 0:
+            break
+        c = r.random()
+        t = None
+        w = 0
+        if not flat and c < 0.15 and structs:
+            cand = [s for s in structs if struct_w[s] <= left]
+            if cand:
+                s = r.choice(cand)
+                t, w = ("struct", s), struct_w[s]
+        elif not flat and c < 0.30:
+            n = r.randint(1, 4)
+            for _ in range(10):
+                e = rand_scalar(r, enums, maxbits=max(1, left // n), floats=floats)
+                ew = _scalar_width(e, enum_w)
+                if ew * n <= left:
+                    t, w = ("arr", e, n), ew * n
+                    break
+        elif not flat and c < 0.36 and structs:
+            cand = [s for s in structs if 2 * struct_w[s] <= left]
+            if cand:
+                s = r.choice(cand)
+                t, w = ("arr", ("struct", s), 2), 2 * struct_w[s]
+        if t is None:
+            for _ in range(20):
+                e = rand_scalar(r, enums, maxbits=left, floats=floats)
+                ew = _scalar_width(e, enum_w)
+                if ew <= left:
+                    t, w = e, ew
+                    break
+        if t is None:
+            t, w = ("u", 1), 1
+        fidx[0] += 1
+        f = {"name": "s%d" % fidx[0], "id": fid, "type": t}
+        if r.random() < 0.25:
+            f["unit"] = r.choice(["m/s", "C", "V", "rpm", "kg", "%"])
+        fields.append(f)
+        left -= w
+    return mk_struct(name, fields), budget - left
+
+
+def gen_can_schema(r, prefix="C", max_bindings=6, flat=False, buses=True, big_endian=True, mux=True,
+                   devices=False, floats=True, enum_maxes=None):
+    """CAN schema with every bound struct <= 64 bits.  Returns decls."""
+    from . import schema as S
+    from ..ref import layout as RL
+
+    decls = []
+    enums = []
+    enum_w = {}
+    for i in range(r.randint(0, 3)):
+        n = "%sEn%d" % (prefix, i)
+        d = mk_enum(n, r.choice(enum_maxes or ENUM_MAXES), r)
+        decls.append(d)
+        enums.append(n)
+        enum_w[n] = max(1, max(v for _, v in d["values"]).bit_length())
+    structs = []
+    struct_w = {}
+    fidx = [0]
+    if not flat:
+        for i in range(r.randint(0, 2)):
+            n = "%sIn%d" % (prefix, i)
+            d, w = gen_budget_struct(r, n, r.randint(1, 24), enums, enum_w, [], {}, fidx, flat=True, floats=False)
+            decls.append(d)
+            structs.append(n)
+            struct_w[n] = w
+    nb = r.randint(1, max_bindings)
+    ids = r.sample(range(0, 2048), nb)
+    bus_names = r.sample(["can0", "can1", "pt", "b", "x1"], r.randint(1, 3))
+    dev_names = r.sample(["ecu", "bms", "inv", "dash"], r.randint(1, 3))
+    for i in range(nb):
+        n = "%sMsg%d" % (prefix, i)
+        budget = r.choice([64, 64, r.randint(1, 64), r.randint(33, 64), r.randint(57, 64)])
+        d, w = gen_budget_struct(r, n, budget, enums, enum_w, structs, struct_w, fidx, flat=flat, floats=floats)
+        decls.append(d)
+        items = [("field", "id", ids[i])]
+        if buses and r.random() < 0.7:
+            items.append(("field", "bus", ("s", r.choice(bus_names))))
+        if devices:
+            if r.random() < 0.8:
+                items.append(("field", "device", ("s", r.choice(dev_names))))
+            if r.random() < 0.6:
+                items.append(("field", "period", r.choice([1, 2, 5, 10, 100, 1000])))
+        # signal blocks on top-level scalar fields, chosen with knowledge of the (reference) layout
+        sch = S.Sch(decls)
+        lay = {nm: (st, wd, t) for nm, st, wd, t, _ in RL.layout(sch, n, True)}
+        scal = [f for f in d["fields"] if f["type"][0] in ("u", "i", "f32", "f64", "enum")]
+        used = set()
+        if big_endian:
+            for f in scal:
+                st, wd, t = lay[f["name"]]
+                if st % 8 == 0 and wd in (8, 16, 32, 64) and r.random() < 0.5:
+                    items.append(("signal", f["name"], [("endianess", ("s", "big"))]))
+                    used.add(f["name"])
+        if mux and r.random() < 0.35:
+            cands = [f for f in scal if f["type"][0] == "u" and 2 <= f["type"][1] <= 8 and f["name"] not in used]
+            others = [f for f in scal if f["name"] not in used]
+            if cands and len(others) >= 2:
+                m = r.choice(cands)
+                cnt = r.randint(1, min(16, 1 << m["type"][1]))
+                for f in r.sample([o for o in others if o is not m], r.randint(1, min(2, len(others) - 1))):
+                    items.append(("signal", f["name"], [("mux_count", cnt), ("mux_signal", ("s", m["name"]))]))
+                    used.add(f["name"])
+        rename = ("%sRen%d" % (prefix, i)) if r.random() < 0.3 else None
+        r.shuffle(items)
+        decls.append({"kind": "impl", "protocol": "can", "type": n, "name": rename, "items": items})
+    # a non-CAN binding and an unbound struct never show up in CAN output
+    if r.random() < 0.4:
+        n = "%sOther" % prefix
+        d, w = gen_budget_struct(r, n, 40, enums, enum_w, [], {}, fidx, flat=True)
+        decls.append(d)
+        decls.append({"kind": "impl", "protocol": "uart", "type": n, "name": None, "items": [("field", "id", ids[0])]})
+    return decls
